@@ -21,6 +21,9 @@ type C11Step struct {
 	Hold  string `json:"hold,omitempty"`  // open: the new handler is held at this yield point until released
 	Gen   int    `json:"gen,omitempty"`   // close / release: which generation (mod number opened so far)
 	HoldT bool   `json:"holdt,omitempty"` // open: this handler will also be held at its teardown ("get:woken", before it removes its registration) until released
+	// LastID (open): "" no Last-Event-ID header; "sync" the id of the last event the peer has seen on the session's streams;
+	// "behind" the id of an earlier event (or one the server never sent)
+	LastID string `json:"lastid,omitempty"`
 }
 
 type C11Case struct {
@@ -39,6 +42,7 @@ func genC11(t *rapid.T) C11Case {
 		case "open":
 			st.Hold = rapid.SampledFrom(c11OpenHolds).Draw(t, "hold")
 			st.HoldT = rapid.IntRange(0, 2).Draw(t, "holdteardown") == 2
+			st.LastID = rapid.SampledFrom([]string{"", "", "sync", "sync", "behind"}).Draw(t, "lastid")
 		case "close":
 			st.Gen = rapid.IntRange(0, 5).Draw(t, "gen")
 		case "release":
@@ -172,7 +176,27 @@ func execC11(c C11Case) *Failure {
 				allGates = append(allGates, tgate)
 				tearOf[gen] = tgate
 			}
-			lr := StartLiveHook(h, "GET", "http://verif/mcp", map[string]string{"Accept": "text/event-stream", "Mcp-Session-Id": conn.SessionID}, func() {
+			openHdr := map[string]string{"Accept": "text/event-stream", "Mcp-Session-Id": conn.SessionID}
+			if st.LastID != "" {
+				// the ids of all events seen so far on this session's streams, oldest first
+				var ids []string
+				for _, os := range streams {
+					for _, e := range os.lr.Events() {
+						if e.HasID && e.ID != "" {
+							ids = append(ids, e.ID)
+						}
+					}
+				}
+				switch {
+				case st.LastID == "sync" && len(ids) > 0:
+					openHdr["Last-Event-Id"] = ids[len(ids)-1]
+				case st.LastID == "behind" && len(ids) > 1:
+					openHdr["Last-Event-Id"] = ids[0]
+				case st.LastID == "behind":
+					openHdr["Last-Event-Id"] = "evt-1-1"
+				}
+			}
+			lr := StartLiveHook(h, "GET", "http://verif/mcp", openHdr, func() {
 				mu.Lock()
 				for _, g := range []*c11Gate{gate, tgate} {
 					if g != nil {
